@@ -53,6 +53,27 @@ func GenIngressResourcesTargeting(r *rng.R, w *World, must []int) {
 				wl.Ports = append(wl.Ports, p)
 			}
 		}
+		// the same port NUMBER declared under another protocol first (QUIC next to HTTPS ...): the TCP declaration is the one that counts
+		if r.P(0.2) {
+			for pi, cp := range wl.Ports {
+				if cp.Protocol() != "TCP" {
+					continue
+				}
+				other := rng.Pick(r, []string{"UDP", "SCTP"})
+				dup := false
+				for _, x := range wl.Ports {
+					if x.Num == cp.Num && x.Protocol() == other {
+						dup = true
+					}
+				}
+				if !dup {
+					twin := CPort{Num: cp.Num, Proto: other}
+					wl.Ports = append(wl.Ports[:pi], append([]CPort{twin}, wl.Ports[pi:]...)...)
+					w.AddFeature("portNumberUnderTwoProtocols")
+				}
+				break
+			}
+		}
 		sv := Service{Ns: wl.Ns, Name: fmt.Sprintf("svc%d", len(w.Services)), Selector: map[string]string{}}
 		ks := SortedKeys(wl.Labels)
 		k := rng.Pick(r, ks)
